@@ -111,6 +111,13 @@ def assign_target(self, target, val, st: State):
 
 def s_Assign(self, node, st):
     def k(s, val):
+        lt = getattr(self.cur_contract, "local_types", None) if self.cur_contract is not None else None
+        if lt and len(node.targets) == 1 and isinstance(node.targets[0], ast.Name) and node.targets[0].id in lt:
+            ty = lt[node.targets[0].id]
+            if isinstance(val, ListVal) and not val.items and isinstance(ty, MapT):
+                val = Val(ty.empty(), ty)
+            else:
+                val = coerce(val, ty)
         res = [(OK, s, None)]
         for t in node.targets:
             res = bind(res, lambda s2, _x, t=t: self.assign_target(t, val, s2))
